@@ -186,6 +186,10 @@ def gen_wstep(rng, tier, index, replicas=None, machines=('48K', '48K', '128K', '
     if rng.random() < 0.5:
         port = rng.choice(gen_prog.PORTS + (0x40FE, 0x7FFE, 0x40FF, 0xC0FE, 0xC0FF, 0x80FF))
         regs[2], regs[3] = port >> 8, port & 0xFF
+        if g == 'ED' and op in (0xA3, 0xAB, 0xB3, 0xBB):
+            # OUTI/OUTD/OTIR/OTDR put (B-1):C on the bus: aim the port that is really written, which makes B the
+            # value one above it (0x80 for 0x7FFD, 0x00 for 0xFFxx)
+            regs[2] = ((port >> 8) + 1) & 0xFF
     return {'kind': 'wstep', 'slot': slot, 'machine': machine, 'mem': mem, 'regs': regs, 'tracer': gen_tracer(rng),
             'reads': gen_reads(rng), 'steps': steps, 'ints': ints, 'replicas': list(replicas or ALL5)}
 
